@@ -17,13 +17,15 @@ Kept(k) == policy = "ignore" /\ k.pre /\ k.scanned /\ k.passes
 Must(k) == k.scanned /\ k.passes /\ k.vanish = "never" /\ ~Kept(k)
 T(d) == IF tdb = -1 THEN d ELSE tdb
 Idx(s) == 1..Len(s)
-EndOK(ev) ==
+EndOK0(ev) ==
   /\ ev.finished /\ ~ev.hung /\ ev.err = "" /\ ev.foreign = 0
   /\ \A i \in Idx(ev.target) : LET t == ev.target[i] IN
         t.pre \/ \E j \in Idx(keys) : keys[j].id = t.id /\ Must(keys[j]) /\ t.db = T(keys[j].db) /\ t.val_ok /\ t.ttl_ok
   /\ \A j \in Idx(keys) : Must(keys[j]) => \E i \in Idx(ev.target) : ev.target[i].id = keys[j].id /\ ~ev.target[i].pre
   /\ \A j \in Idx(keys) : Kept(keys[j]) => \E i \in Idx(ev.target) : ev.target[i].pre /\ ev.target[i].pre_of = keys[j].id
   /\ \A i, i2 \in Idx(ev.target) : (i # i2 /\ ~ev.target[i].pre /\ ~ev.target[i2].pre) => ev.target[i].id # ev.target[i2].id
+\* a fault at the target (one RESTORE refused): the run reports it - nothing else is promised about that run
+EndOK(ev) == IF ev.fault_fired THEN ev.err # "" ELSE EndOK0(ev)
 EventOK(ev) == CASE ev.e = "rend" -> EndOK(ev) [] OTHER -> TRUE
 TInit == l = 1 /\ bad = 0 /\ keys = <<>> /\ tdb = -1 /\ policy = "none"
 TNext == /\ l <= Len(Trace) /\ l' = l + 1
